@@ -65,7 +65,7 @@ var prop = vlib.Prop[*vlib.HistCase]{
 // Exec runs one history and checks the C01 oracle after every successful step.
 func Exec(c *vlib.HistCase) (nontrivial bool, labels []string, fail *vlib.Failure) {
 	if strings.HasPrefix(c.GNMI, "nc:") {
-		return vlib.ExecNCLoop(c, "C01", false)
+		return vlib.ExecNCLoop(c, "C01", false, nil)
 	}
 	ctx := context.Background()
 	env := vlib.MustEnv()
